@@ -73,6 +73,24 @@ def sortEntries : List Entry → List Entry
   | [] => []
   | e :: es => insertEntry e (sortEntries es)
 
+/-- convert one mapping entry: key converter, value converter -/
+def kvM (fk fv : V → R V) (kv : V × V) : R (V × V) := do
+  let a ← fk kv.1
+  let b ← fv kv.2
+  pure (a, b)
+
+/-- like `kvM`, but the converted key must be hashable (it becomes a dict key) -/
+def kvMH (fk fv : V → R V) (kv : V × V) : R (V × V) := do
+  let a ← fk kv.1
+  let b ← fv kv.2
+  if pyHashable a then pure (a, b) else raisePy .typeError
+
+/-- one map of a ChainMap: `{k: v for key, value in m.items()}` -/
+def itemsM (f : V × V → R (V × V)) (m : V) : R V := do
+  let kvs ← pyItems m
+  let r ← kvs.mapM f
+  pure (V.map .dict r)
+
 mutual
 def pack (O : Oracle) (cx : Cx) (fx : Fx) : Ty → V → R V
   | .any, v => .ok v
@@ -118,21 +136,12 @@ def pack (O : Oracle) (cx : Cx) (fx : Fx) : Ty → V → R V
       if o == .dict && k.packIdent && t.packIdent then pyCopy v
       else do
         let kvs ← pyItems v
-        let r ← kvs.mapM (fun kv => do
-          let a ← pack O cx fx k kv.1
-          let b ← (if o == .counter then pure kv.2 else pack O cx fx t kv.2)
-          pure (a, b))
+        let r ← kvs.mapM (kvM (pack O cx fx k) (if o == .counter then pure else pack O cx fx t))
         pure (.map .dict r)
   | .chain k t, v =>
       match v with
       | .coll .chainmap ms => do
-          let r ← ms.mapM (fun m => do
-            let kvs ← pyItems m
-            let r ← kvs.mapM (fun kv => do
-              let a ← pack O cx fx k kv.1
-              let b ← pack O cx fx t kv.2
-              pure (a, b))
-            pure (V.map .dict r))
+          let r ← ms.mapM (itemsM (kvM (pack O cx fx k) (pack O cx fx t)))
           pure (.coll .list r)
       | _ => raisePy .attributeError
   | .tvar t, v => do
@@ -220,17 +229,13 @@ def packFields (O : Oracle) (cx : Cx) (cls : String) (cfg : Cfg) :
       else do
         let x ← attr ivs f.name
         let key := if cfg.serializeByAlias then f.alias.getD f.name else f.name
-        let isNone := match x with | .none => true | _ => false
-        if fieldCouldBeNone f t && isNone then
-          let drop := cfg.omitNone || (cfg.omitDefault && (match f.default with | some .none => true | _ => false))
+        if fieldCouldBeNone f t && isNone x then
+          let drop := cfg.omitNone || (cfg.omitDefault && f.defaultIsNone)
           let r ← packFields O cx cls cfg fs ivs
           pure (if drop then r else { name := f.name, key := key, val := .none } :: r)
         else do
           let a ← pack O cx { field := f.name, holder := cls } t x
-          let drop := cfg.omitDefault && (match f.default with
-            | some .none => false
-            | some dv => O.eq x dv
-            | none => false)
+          let drop := cfg.omitDefault && f.eqDefault O x
           let r ← packFields O cx cls cfg fs ivs
           pure (if drop then r else { name := f.name, key := key, val := a } :: r)
 end
